@@ -174,6 +174,11 @@ def ensure_makefile():
     text = "-Q . Krrood\n" + "\n".join(files) + "\n"
     changed = write_if_changed(proj, text)
     if changed or not mf.exists():
+        # the cached dependency file names every .v that existed before: a file that disappeared since
+        # (a refused translation removes its Gen/X.v) would otherwise break make for EVERY target
+        dep = COQ / ".Makefile.coq.d"
+        if dep.exists():
+            dep.unlink()
         rc, out = sh(["coq_makefile", "-f", "_CoqProject", "-o", "Makefile.coq"], cwd=COQ)
         if rc != 0:
             raise RuntimeError("coq_makefile failed:\n" + out)
@@ -507,8 +512,11 @@ def standard_proof_steps(rep: Report, prop: str, targets: Sequence[str], regen: 
             rep.oblige(f"regen:{name}", True, str(path.relative_to(VERIF)))
         except Exception as e:  # translator refused
             rep.oblige(f"regen:{name}", False, str(e))
-            if path.exists():
-                path.unlink()  # never build against a stale translation
+            # never build or evaluate against a stale translation (source or compiled)
+            for ext in (".v", ".vo", ".vos", ".vok", ".glob"):
+                q = path.with_suffix(ext)
+                if q.exists():
+                    q.unlink()
     # 2 build
     ok, log = coq_make(list(targets))
     rep.oblige(f"build:{' '.join(targets)}", ok, "" if ok else first_error(log))
